@@ -718,7 +718,11 @@ M('c16-exception-str-strict-encode', 'C16', 'C16.R8', EXC, "class ParserError(Ex
   "class ParserError(Exception):\n    def __str__(self):\n        return super().__str__().encode('ascii').decode('ascii')")
 B('c16-exception-ctor-stores-fields', ['C16', 'C01', 'C03', 'C20', 'C02', 'C07'], EXC, "class ParserError(Exception):\n    pass",
   "class ParserError(Exception):\n    def __init__(self, message='', *args):\n        super().__init__(message, *args)\n        self.message = message")
-CORPUS.append({'id': 'S/R5-1-silent', 'props': ['C01', 'C02', 'C03', 'C07', 'C16', 'C20'], 'rule': None, 'expect': 'silent',
+CORPUS.append({'id': 'S/R5-1-silent', 'props': ['C01', 'C02', 'C03', 'C07', 'C16'], 'rule': None, 'expect': 'silent',
+               'edits': [], 'patch': 'seeded_benign/R5-1/patch.diff'})
+# R5-1 clips long messages: harmless for C16 (the twin it was derived for), but round 8 (seed C20-M) showed that clipping drops the
+# " at line N" tail of a syntax-error message whose token is long - for C20 it is a breaking change and C20.R2 reports it
+CORPUS.append({'id': 'S/R5-1-C20', 'props': ['C20'], 'rule': 'C20.R2', 'expect': 'violation',
                'edits': [], 'patch': 'seeded_benign/R5-1/patch.diff'})
 
 P('C16-D', 'C16', 'C16.R2')
@@ -758,7 +762,9 @@ for _r in ('R1-1', 'R1-2', 'R1-3', 'R1-4', 'R2-1', 'R2-2', 'R2-3', 'R2-4', 'R3-1
            'R10-1', 'R10-2', 'R10-3', 'R10-4', 'R11-1', 'R11-2', 'R11-3', 'R11-4', 'R12-1', 'R12-2', 'R12-3', 'R12-4', 'R13-1', 'R13-2', 'R13-3', 'R13-4',
            'R14-1', 'R14-2', 'R14-3', 'R14-4', 'R15-1', 'R15-2', 'R15-3', 'R15-4', 'R16-1', 'R16-2', 'R16-3', 'R16-4', 'R17-1', 'R17-2', 'R17-3', 'R17-4',
            'R18-1', 'R18-2', 'R18-3', 'R18-4', 'R19-1', 'R19-2', 'R19-3', 'R19-4', 'R20-1', 'R20-2', 'R20-3', 'R20-4',
-           'R21-1', 'R21-2', 'R21-3', 'R21-4'):
+           'R21-1', 'R21-2', 'R21-3', 'R21-4',
+           'R22-1', 'R22-2', 'R22-3', 'R22-4', 'R23-1', 'R23-2', 'R23-3', 'R23-4', 'R24-1', 'R24-2', 'R24-3', 'R24-4',
+           'R25-1', 'R25-2', 'R25-3', 'R25-4'):
     CORPUS.append({'id': 'S/' + _r + '-silent', 'props': ALL_PROPS, 'rule': None, 'expect': 'silent', 'edits': [],
                    'patch': 'seeded_benign/%s/patch.diff' % _r, 'tolerate_rekeyed': True})
 
@@ -861,7 +867,8 @@ P('C19-I', 'C04', 'C04.R3'); P('C19-J', 'C19', 'C19.R1')
 P('C20-I', 'C20', 'C20.R1'); P('C20-J', 'C20', 'C20.R1')
 # round 7 (feature additions that are correct in isolation)
 P('C01-K', 'C01', 'C01.R8'); P('C01-L', 'C01', 'C01.R7')
-P('C02-K', 'C02', 'C02.R5'); P('C02-L', 'C01', 'C01.R8')
+P('C02-K', 'C02', 'C02.R5'); P('C02-L', 'C02', 'C02.R3')
+CORPUS.append({'id': 'S/C02-L-silent', 'props': ['C01'], 'rule': None, 'expect': 'silent', 'edits': [], 'patch': 'seeded/C02-L/patch.diff'})   # the ops-limit error is re-raised by an earlier clause
 P('C03-K', 'C03', 'C03.R3'); P('C03-L', 'C03', 'C03.R5')
 P('C04-K', 'C04', 'C04.R1'); P('C04-L', 'C04', 'C04.R1')
 P('C05-K', 'C05', 'C05.R1'); P('C05-L', 'C01', 'C01.R5')
@@ -881,3 +888,31 @@ P('C18-K', 'C11', 'C11.R2'); P('C18-L', 'C18', 'C18.R3')
 P('C19-K', 'C19', 'C19.R1'); P('C19-L', 'C07', 'C07.R7')
 P('C20-K', 'C20', 'C20.R1'); P('C20-L', 'C20', 'C20.R2')
 B('c16-finally-guarded-delete', 'C16', SQP, "            return ast.eval(state)\n", "            try:\n                return ast.eval(state)\n            finally:\n                if '__tmp__' in scoped_names.scopes[-1]:\n                    del scoped_names.scopes[-1]['__tmp__']\n")
+
+# round 8 (performance optimisations and robustness changes, M/N): the rule of the seed's own property that reports it.
+# C08-N (round() returns integral values unchanged, wrong only for negative digit counts) is not reported by any rule.
+P('C01-M', 'C01', 'C01.R8'); P('C01-N', 'C01', 'C01.R4')
+P('C02-M', 'C02', 'C02.R5'); P('C02-N', 'C02', 'C02.R4')
+P('C03-M', 'C03', 'C03.R4'); P('C03-N', 'C03', 'C03.R6')
+P('C04-M', 'C04', 'C04.R1'); P('C04-N', 'C04', 'C04.R2')
+P('C05-M', 'C05', 'C05.R1'); P('C05-N', 'C05', 'C05.R3')
+P('C06-M', 'C06', 'C06.R8'); P('C06-N', 'C06', 'C06.R7')
+P('C07-M', 'C07', 'C07.R10'); P('C07-N', 'C07', 'C07.R11')
+P('C08-M', 'C08', 'C08.R1')
+P('C09-M', 'C09', 'C09.R1'); P('C09-N', 'C09', 'C09.R4')
+P('C10-M', 'C10', 'C10.R5'); P('C10-N', 'C10', 'C10.R1')
+P('C11-M', 'C11', 'C11.R1'); P('C11-N', 'C11', 'C11.R3')
+P('C12-M', 'C12', 'C12.R1'); P('C12-N', 'C12', 'C12.R3')
+P('C13-M', 'C13', 'C13.R1'); P('C13-N', 'C13', 'C13.R3')
+P('C14-M', 'C14', 'C14.R1'); P('C14-N', 'C14', 'C14.R6')
+P('C15-M', 'C15', 'C15.R7'); P('C15-N', 'C15', 'C15.R1')
+P('C16-M', 'C16', 'C16.R2'); P('C16-N', 'C16', 'C16.R5')
+P('C17-M', 'C17', 'C17.R1'); P('C17-N', 'C17', 'C17.R8')
+P('C18-M', 'C18', 'C18.R1'); P('C18-N', 'C18', 'C18.R4')
+P('C19-M', 'C19', 'C19.R1'); P('C19-N', 'C19', 'C19.R2')
+P('C20-M', 'C20', 'C20.R2'); P('C20-N', 'C20', 'C20.R2')
+# seeds of this round that must leave other properties alone (false alarms seen while evaluating them)
+CORPUS.append({'id': 'S/C03-N-silent', 'props': ['C01'], 'rule': None, 'expect': 'silent', 'edits': [], 'patch': 'seeded/C03-N/patch.diff'})
+CORPUS.append({'id': 'S/C15-M-silent', 'props': ['C17'], 'rule': None, 'expect': 'silent', 'edits': [], 'patch': 'seeded/C15-M/patch.diff'})
+CORPUS.append({'id': 'S/C13-M-silent', 'props': ['C14', 'C16'], 'rule': None, 'expect': 'silent', 'edits': [], 'patch': 'seeded/C13-M/patch.diff'})
+CORPUS.append({'id': 'S/C05-M-silent', 'props': ['C02'], 'rule': None, 'expect': 'silent', 'edits': [], 'patch': 'seeded/C05-M/patch.diff'})
